@@ -32,7 +32,7 @@ import (
 // provided Encode writes one complete value (assumed contract of encoding/json).
 
 const (
-	jkLBrace = iota + 1
+	jkLBrace int64 = iota + 1
 	jkRBrace
 	jkLBrack
 	jkRBrack
@@ -221,7 +221,7 @@ func jsonSafeKey(s string) bool {
 }
 
 type jchunk struct {
-	kind   int
+	kind   int64
 	c, n   string // SMT terms
 	safe   string
 	splice string // writer term, kind == 0 && splice != ""
@@ -297,9 +297,12 @@ func (e *FuncEnc) classifyChunk(v ssa.Value) jchunk {
 		}
 		nv := e.origin(atoms[i+1].val)
 		n := e.valTerm(atoms[i+1].val)
-		safe := "false"
-		if cst, ok := nv.(*ssa.Const); ok && cst.Value != nil && cst.Value.Kind() == constant.String && jsonSafeKey(constant.StringVal(cst.Value)) {
-			safe = "true"
+		safe := sx(e.D.UF("safekey", []string{"Str"}, "Bool"), n)
+		if cst, ok := nv.(*ssa.Const); ok && cst.Value != nil && cst.Value.Kind() == constant.String {
+			safe = "false"
+			if jsonSafeKey(constant.StringVal(cst.Value)) {
+				safe = "true"
+			}
 		}
 		switch tail {
 		case `":`:
@@ -392,10 +395,17 @@ func (e *FuncEnc) jsonWrite(in ssa.Instruction, w string, data ssa.Value, dataTe
 	case ch.splice != "":
 		good = sx("ev_jw_splice", w, ch.splice)
 	default:
-		good = sx("ev_jw_tok", w, itoa(int64(ch.kind)), ch.c, ch.n, ch.safe)
+		good = sx("ev_jw_tok", w, itoa(ch.kind), ch.c, ch.n, ch.safe)
 	}
-	nt := ite(full, sx("tr_cons", e.cur.trace, good), sx("tr_cons", e.cur.trace, sx("ev_jw_bad", w)))
-	e.cur.trace = e.define("tr", "Trace", nt)
+	switch {
+	case ch.ok && ch.splice == "":
+		// a short / failed write is an unsafe token: BAD
+		good = sx("ev_jw_tok", w, itoa(ch.kind), ch.c, ch.n, and(ch.safe, full))
+		e.cur.trace = e.define("tr", "Trace", sx("tr_cons", e.cur.trace, good))
+	default:
+		nt := ite(full, sx("tr_cons", e.cur.trace, good), sx("tr_cons", e.cur.trace, sx("ev_jw_bad", w)))
+		e.cur.trace = e.define("tr", "Trace", nt)
+	}
 }
 
 func InstallJSONLibrary(w *World) {
@@ -482,4 +492,42 @@ func (e *FuncEnc) freshBufferFacts(x *ssa.Alloc, addr string) {
 	tr := e.cur.trace
 	e.assume("true", and(eq(sx("jst", tr, w), "0"), eq(sx("jobj", tr, w), "j_empty"), not(sx("jdup", tr, w)), eq(sx("jarr", tr, w), "seq_nil")))
 	e.Assumed["a bytes.Buffer variable starts empty"] = true
+}
+
+// mergeTraces: the trace at a control-flow join. In general the ite of the
+// incoming traces; when the ghost JSON views are in use and writers are known,
+// a fresh trace whose views (for those writers) are the ite of the incoming
+// views: the solver then works on integer / array ite chains of linear size
+// instead of unfolding view axioms over nested trace conditionals.
+func (e *FuncEnc) mergeTraces(conds, trs []string) string {
+	same := true
+	for _, t := range trs[1:] {
+		if t != trs[0] {
+			same = false
+		}
+	}
+	if same {
+		return trs[0]
+	}
+	ws := e.jsonWriters()
+	if e.W == nil || !e.W.JSONViews || len(ws) == 0 {
+		tr := trs[len(trs)-1]
+		for i := len(trs) - 2; i >= 0; i-- {
+			tr = ite(conds[i], trs[i], tr)
+		}
+		return e.define("tr", "Trace", tr)
+	}
+	e.jsonEvents()
+	m := e.newSym("trm", "Trace")
+	for _, w := range ws {
+		for _, view := range []string{"jst", "jobj", "jdup", "jkey", "jarr"} {
+			expr := sx(view, trs[len(trs)-1], w)
+			for i := len(trs) - 2; i >= 0; i-- {
+				expr = ite(conds[i], sx(view, trs[i], w), expr)
+			}
+			e.emit("(assert (= " + sx(view, m, w) + " " + expr + "))")
+		}
+	}
+	e.Assumed["at control-flow joins of codec functions only the JSON writer views of the trace are carried over (other trace facts are dropped: incomplete, not unsound)"] = true
+	return m
 }
